@@ -201,7 +201,7 @@ func runMembership(c *Ctx, plan any) {
 	// (as far as the client can know); a connection that the server closes
 	// with "internal server error" belongs to a client that did nothing wrong.
 	for _, sc := range w.clients {
-		if sc.closeCode == 1011 {
+		if sc.closeCode == 1011 && !sc.everStalled {
 			c.Violation("C12.wellbehaved-closed", "the server closed the connection of client %s with an internal error (code %d %q) although the client only sent well-formed, legal messages (join, leave, moderation and setdata actions)", sc.id, sc.closeCode, sc.closeText)
 			return
 		}
